@@ -92,13 +92,15 @@ theorem readDataBlock_encode (inflate : Inflate) (b : Block) (hwf : b.wf = true)
   | some c =>
     have hm : b.marker = c.length.toUInt32 := by simp [Block.marker, hcomp]
     have hp : b.payload = c := by simp [Block.payload, hcomp]
-    have hcl : c.length < 32000 := by simpa [hcomp] using hc
+    have hcl2 : c.length < 32000 ∧ b.data.length ≤ 1048576 := by simpa [hcomp] using hc
+    have hcl := hcl2.1
     have h1 : ¬ (c.length.toUInt32 ≥ 0x80000000) := toUInt32_lt _ (by omega)
     have h2 : c.length.toUInt32 < 32000 := by
       apply UInt32.lt_iff_toNat_lt.mpr
       rw [toUInt32_toNat _ (by omega)]; exact hcl
+    have h3 : ¬ (b.data.length > 1048576) := by omega
     simp only [hm, h1, h2, if_false, if_true, hp, toUInt32_toNat _ (show c.length < 4294967296 by omega),
-      bytes_append c _ _ rfl, toUInt32_toNat _ (show b.data.length < 4294967296 by omega), hd c hcomp]
+      bytes_append c _ _ rfl, toUInt32_toNat _ (show b.data.length < 4294967296 by omega), h3, hd c hcomp]
 
 /-! ### standard entries -/
 
@@ -279,8 +281,13 @@ theorem readLodBlocks_ok (inflate : Inflate) (whole : Bytes) :
     have hnext := drop_add_of_drop hw
     have ih' := ih (running + (encodeBlock b).length) T X (fun x hx => hb x (by simp [hx])) hnext (by omega)
     have hlt := encodeBlock_length_lt b hwf
+    have hs : ¬ ((encodeBlock b).length.toUInt16 ≥ 0x8000) := by
+      intro hge
+      have := UInt16.le_iff_toNat_le.mp hge
+      rw [toUInt16_toNat _ (show (encodeBlock b).length < 65536 by omega)] at this
+      simp at this; omega
     simp only [List.length_cons, readLodBlocks, hblk, sizeTable_cons, List.append_assoc, u16le_put,
-      i16AsU64_small _ hlt, addU64,
+      hs, if_false, toUInt16_toNat _ (show (encodeBlock b).length < 65536 by omega), addU64,
       show running + (encodeBlock b).length < 18446744073709551616 by omega, if_true, ih', contents_cons]
 
 /-- the LOD records a texture header stores -/
